@@ -126,6 +126,9 @@ func (reg *Registry) Migrate(ctx context.Context) (err error) {
 			diag.Message = "failed to persist migration status"
 			diag.Wrapped = err
 			diag.FailedMigration = m.Description
+			tracer.Errorf("migration: failed to persist migration status for %s: %s - %s", reg.key, target.String(), m.Description)
+			tracer.Submit()
+			return diag
 		}
 		tracer.Infof("migration: applied migration for %s: %s - %s", reg.key, target.String(), m.Description)
 		tracer.Submit()
